@@ -544,6 +544,11 @@ def cases(ctx):
                     yield dict(s='G', toks=list(seq), mode=mode, c=gidx // 2, fam=('role', 'attr', 'kw')[(gidx + mode) % 3])
             gidx += 1
     ctx.stratum('G', exhaustive=True)
+    # D: deep nesting (small; before the large enumerations so that a cut budget does not lose it)
+    for i, (d, ast, k) in enumerate(deep_asts()):
+        if ctx.mine(i):
+            yield dict(s='D', ast=ast, k=k, depth=d, fam='role' if i % 2 else 'attr')
+    ctx.stratum('D', exhaustive=True)
     # A: exhaustive sentences
     total = 0
     for n in range(1, b['L'] + 1):
@@ -579,17 +584,16 @@ def cases(ctx):
                     continue
                 yield dict(s='AK', toks=list(seq), fill=''.join(fill), fam=('role', 'attr', 'kw')[kidx % 3])
     ctx.stratum('AK', exhaustive=True)
-    # D: deep nesting
-    for i, (d, ast, k) in enumerate(deep_asts()):
-        if ctx.mine(i):
-            yield dict(s='D', ast=ast, k=k, depth=d, fam='role' if i % 2 else 'attr')
-    ctx.stratum('D', exhaustive=True)
     # C: exhaustive list shapes
     for i, value in enumerate(list_shapes(ctx.tier)):
         if ctx.mine(i):
             yield dict(s='C', value=value)
     ctx.stratum('C', exhaustive=True)
-    # B: random ASTs
+
+
+def cases_random(ctx):
+    # B: random ASTs (a generator of its own: it has its own share of the wall budget, see run())
+    b = BOUNDS[ctx.tier]
     ctx.stratum('B', exhaustive=False)
     per = b['nB'] // ctx.nshards + 1
     for i in range(per):
@@ -607,16 +611,20 @@ def cases(ctx):
 
 
 def run(ctx):
-    ctx.reserve(0.8)          # the strata that come last (overlapping operations) keep a fifth of the wall budget
+    # cumulative shares of the wall budget: the enumerated strata two thirds of it (they end by themselves on an idle machine; a
+    # loaded thorough run once cut them at 0.8 and left nothing for B), the random ASTs up to 0.8, the strata that come
+    # last (overlapping operations, first use) keep a fifth
     contracts.parse_state_stacks_parallel()
     contracts.parse_rule_returns_check()
     real = Real()
-    for case in cases(ctx):
-        if ctx.expired():
-            for s in ctx.strata.values():
-                s['exhaustive'] = False
-            break
-        check_case(ctx, real, case)
+    for share, source in ((0.65, cases), (0.8, cases_random)):
+        ctx.reserve(share)
+        for case in source(ctx):
+            if ctx.expired():
+                for s in ctx.strata.values():
+                    s['exhaustive'] = False
+                break
+            check_case(ctx, real, case)
     ctx.release()
     # O: overlapping operations last (the line-level scheduler slows everything that runs after it is installed)
     from pv.mon import sched
